@@ -207,7 +207,7 @@ FUZZ_TARGETS = {"lru": (_fuzz_lru, lambda c: True, None)}
 
 def campaigns(tier, seed):
     return [
-        Campaign("coverage-guided", F.fuzz_campaign("lru", runs=(2500, 150000), max_len=72, dictionary=F.URL_DICT + ["co.uk", "kawasaki.jp", "blogspot.com", ":", "@", ";"], corpus=F.URL_CORPUS), "atheris",
+        Campaign("coverage-guided", F.fuzz_campaign("lru", runs=(2500, 150000), max_len=72, dictionary=F.URL_DICT + ["co.uk", "kawasaki.jp", "blogspot.com", ":", "@", ";"], corpus=F.URL_CORPUS), F.ENGINE,
                  bounds="libFuzzer over UTF-8 strings <= 72 bytes that parse, without '|', whitespace or control characters x suffix_aware"),
         Campaign("shape-panel", _panel, "enumeration", exhaustive=True,
                  bounds="5 scheme forms x 6 userinfo x 16 hosts x 4 ports x 8 paths x 7 query/fragment tails x suffix_aware"),
